@@ -92,25 +92,33 @@ theorem field_ids (buf : Array Nat) (fuel : Nat) (post : Field → Field) (t : T
 
 example : numberSpec none [none, none, some 7, none, some 3, none] = [1, 2, 7, 8, 3, 4] := by decide
 
-/-- A field id written as a decimal numeral (optionally signed) that fits int32 is read as written
-(`strconv.ParseInt(text, 10, 32)` as parseField calls it). -/
-theorem field_ids_written (ds : List Nat) (hne : ds ≠ []) (hd : digitsOK ds) :
-    (decVal ds < 2 ^ 31 → GoStrconv.parseInt (ds.map (· + 48)) 10 32 = ((decVal ds : Int), false)) ∧
-    (decVal ds < 2 ^ 31 → GoStrconv.parseInt (43 :: ds.map (· + 48)) 10 32 = ((decVal ds : Int), false)) ∧
-    (decVal ds ≤ 2 ^ 31 → GoStrconv.parseInt (45 :: ds.map (· + 48)) 10 32 = (-(decVal ds : Int), false)) :=
-  ⟨parseInt_decimal ds hne hd,
-   fun h => by simpa using parseInt_decimal_signed false ds hne hd (by simpa using h),
-   fun h => by simpa using parseInt_decimal_signed true ds hne hd (by simpa using h)⟩
+/-- An explicit field id is read by `fieldIdOf` (parseField after fix d36828f: `ParseInt(text, 10, 32)`, on error
+`ParseInt(text, 0, 32)`, error when both fail).  Written ids are read as written in every spelling the grammar allows:
+decimal numerals (zero-padded ones stay decimal), optionally signed; `0x…` with hex digits of either case; `0o…` —
+whenever the value fits int32. -/
+theorem field_ids_written :
+    (∀ ds, ds ≠ [] → digitsOK ds → decVal ds < 2 ^ 31 → fieldIdOf (ds.map (· + 48)) = some (decVal ds : Int)) ∧
+    (∀ ds, ds ≠ [] → digitsOK ds → decVal ds < 2 ^ 31 → fieldIdOf (43 :: ds.map (· + 48)) = some (decVal ds : Int)) ∧
+    (∀ ds, ds ≠ [] → digitsOK ds → decVal ds ≤ 2 ^ 31 → fieldIdOf (45 :: ds.map (· + 48)) = some (-(decVal ds : Int))) ∧
+    (∀ c cs ds, Spells 16 (c :: cs) ds → valIn 16 ds < 2 ^ 31 → fieldIdOf (48 :: 120 :: c :: cs) = some (valIn 16 ds : Int)) ∧
+    (∀ c cs ds, Spells 8 (c :: cs) ds → valIn 8 ds < 2 ^ 31 → fieldIdOf (48 :: 111 :: c :: cs) = some (valIn 8 ds : Int)) :=
+  ⟨fieldIdOf_decimal,
+   fun ds hne hd h => by simpa using fieldIdOf_decimal_signed false ds hne hd (by simpa using h),
+   fun ds hne hd h => by simpa using fieldIdOf_decimal_signed true ds hne hd (by simpa using h),
+   fieldIdOf_hex, fieldIdOf_octal⟩
 
 example : digitsOK [4, 2] ∧ decVal [4, 2] = 42 := by decide
+example : Spells 16 (txt "1F") [1, 15] ∧ valIn 16 [1, 15] = 31 := by decide
 
-/- FALSE on the code (and on the model): ids written in another spelling, or outside int32, are *not* read as
-written — the error of ParseInt is dropped.  Witnesses ("fieldid-nondecimal", "fieldid-range", NOTSET): -/
-example : GoStrconv.parseInt (txt "0x10") 10 32 = (0, true) := by decide
-example : GoStrconv.parseInt (txt "0o17") 10 32 = (0, true) := by decide
-example : GoStrconv.parseInt (txt "99999999999") 10 32 = (2147483647, true) := by decide
-example : GoStrconv.parseInt (txt "-99999999999") 10 32 = (-2147483648, true) := by decide
-example : written { emptyField with id := (GoStrconv.parseInt (txt "-999999") 10 32).1 } = none := by decide
+/- regression items (defects `fieldid-nondecimal`, `fieldid-range`, fixed by d36828f): -/
+example : fieldIdOf (txt "0x10") = some 16 := by decide
+example : fieldIdOf (txt "0o17") = some 15 := by decide
+example : fieldIdOf (txt "010") = some 10 := by decide
+example : fieldIdOf (txt "08") = some 8 := by decide
+example : fieldIdOf (txt "99999999999") = none := by decide      -- parseField returns an error
+example : fieldIdOf (txt "-99999999999") = none := by decide
+/- still true: -999999 is the NOTSET sentinel, such a field is renumbered -/
+example : (fieldIdOf (txt "-999999")).map (fun v => written { emptyField with id := v }) = some none := by decide
 
 /-- Enum numbering: folding the loop's step over the members gives "written values as written, otherwise
 previous + 1 (int64 arithmetic), the first 0". -/
@@ -120,11 +128,15 @@ theorem enum_values (ws : List (Bytes × Option Int)) :
 
 example : enumSpec none [none, none, some 10, none, some 1, none] = [0, 1, 10, 11, 1, 2] := by decide
 
-/- Enum values are read with `ParseInt(text, 0, 64)` and the error is dropped: `08` is 0, `010` is 8. -/
-example : GoStrconv.parseInt (txt "08") 0 64 = (0, true) := by decide
-example : GoStrconv.parseInt (txt "010") 0 64 = (8, false) := by decide
-example : GoStrconv.parseInt (txt "0x1F") 0 64 = (31, false) := by decide
-example : GoStrconv.parseInt (txt "0o17") 0 64 = (15, false) := by decide
+/- Explicit enum values (`enumValueOf`, parseEnum after fix 1a143d7): `ParseInt(text, 0, 64)`, on error
+`ParseInt(text, 10, 64)`, error when both fail.  Regression items: -/
+example : enumValueOf (txt "08") = some 8 := by decide
+example : enumValueOf (txt "010") = some 8 := by decide
+example : enumValueOf (txt "0x1F") = some 31 := by decide
+example : enumValueOf (txt "0o17") = some 15 := by decide
+example : enumValueOf (txt "-5") = some (-5) := by decide
+example : enumValueOf (txt "0xZZ") = none := by decide
+example : enumValueOf (txt "99999999999999999999") = none := by decide
 
 /-! ## annotations -/
 
@@ -165,8 +177,7 @@ example : unescLoop 34 (txt "a\\\\") = txt "a\\\\\\" := by decide
 
 FULL STATEMENT (not proved): for every document `d` and layouts `ℓ₁ ℓ₂` (a Skip-string at every token boundary, a
 separator `,` `;` or none at every list position, a quote kind per literal, decimal spellings of integers),
-`parseString (render d ℓ₁)` and `parseString (render d ℓ₂)` are equal up to ReservedComments.  It is FALSE for exponent
-doubles and non-decimal field ids (witnesses below). -/
+`parseString (render d ℓ₁)` and `parseString (render d ℓ₂)` are equal up to ReservedComments.  Exponent doubles and non-decimal field ids, for which it was false, are repaired (regression items below). -/
 
 /-- The value of a literal does not depend on the quote kind it is written with. -/
 theorem quote_kind_independent (s : List Nat) (h1 : Plain 34 s) (h2 : Plain 39 s) :
@@ -224,25 +235,53 @@ def dblTexts (o : C03.Outcome) : List Bytes :=
   | .ok t => t.constants.map (fun c => match c.value with | .dbl s => s | _ => [0])
   | _ => [[1]]
 
+def defCount (o : C03.Outcome) : Option Nat :=
+  match o with
+  | .ok t => some (t.includes.length + t.cppIncludes.length + t.namespaces.length + t.typedefs.length + t.constants.length
+      + t.enums.length + t.structs.length + t.unions.length + t.exceptions.length + t.services.length)
+  | _ => none
+
 def structFieldSummary (o : C03.Outcome) : List (Int × Bytes × Nat × Bytes) :=
   match o with
   | .ok t => (t.structs.map (fun s => s.fields.map (fun f => (f.id, f.name, f.req,
       match f.ty with | .mk n _ _ _ _ => n | .none => [])))).flatten
   | _ => [(0, [1], 0, [])]
 
-/- "double-exponent": the text handed to ParseFloat for `1e5` is "5" (pegText returns the innermost PegText,
-the exponent's IntConstant); `1.5` is unaffected. -/
+/-- For every DoubleConstant node of a parse tree (children conforming to the rule, inside the buffer), the text handed
+to `strconv.ParseFloat` is the node's own capture `buffer[b1:e1]` — the whole literal, trailing blanks trimmed — wherever
+blanks or comments precede or follow it; never the exponent's IntConstant (fixes 5d7ef08, 5914c39 and the trim). -/
+theorem double_text (buf : Array Nat) (n : Nat) (hn : n ≤ buf.size) (fuel b0 e0 b e : Nat) (u next : T)
+    (hs : Safe ids.rPegText n u) (hk : Kids G Generated.C03.nul (ruleBody ids.rDoubleConstant) b e u) :
+    ∃ b1 e1, b ≤ b1 ∧ b1 < e1 ∧ e1 ≤ e ∧
+      parseConstValue ids buf (fuel + 1) (.node ids.rConstValue b0 e0 (.node ids.rDoubleConstant b e u .nil) next) =
+        .ok (.dbl (trimRightBlank (Utf8.encode (slice buf b1 e1)))) :=
+  Walker.double_text buf n hn fuel b0 e0 b e u next hs hk
+
+/- regression items for `double-exponent` (whole pipeline): -/
 set_option maxRecDepth 100000 in
-example : dblTexts (C03.parseString G ids (txt "const double d = 1e5")) = [txt "5"] := by decide
+example : dblTexts (C03.parseString G ids (txt "const double d = 1e5")) = [txt "1e5"] := by decide
+set_option maxRecDepth 100000 in
+example : dblTexts (C03.parseString G ids (txt "const double d =\n1.5e3 // c")) = [txt "1.5e3"] := by decide
+set_option maxRecDepth 100000 in
+example : dblTexts (C03.parseString G ids (txt "const double d = 1e5 ,")) = [txt "1e5"] := by decide
 set_option maxRecDepth 100000 in
 example : dblTexts (C03.parseString G ids (txt "const double d = 1.5")) = [txt "1.5"] := by decide
 
-/- "fieldid-nondecimal": `0x10:` is id 0 and the next unnumbered field is 1. -/
+/- regression item for `fieldid-nondecimal`: `0x10:` is id 16 and the next unnumbered field is 17. -/
 set_option maxRecDepth 100000 in
 example : structFieldSummary (C03.parseString G ids (txt "struct S { 0x10: i32 a; i32 b }")) =
-    [(0, txt "a", 0, txt "i32"), (1, txt "b", 0, txt "i32")] := by decide
+    [(16, txt "a", 0, txt "i32"), (17, txt "b", 0, txt "i32")] := by decide
 
-/- "fieldreq-prefix": FieldReq has no `!LetterOrDigit` guard, a type named `requiredness` is split. -/
+/- regression item for `fieldid-range`: a parse (walker) error -/
+set_option maxRecDepth 100000 in
+example : structFieldSummary (C03.parseString G ids (txt "struct S { 99999999999: i32 a }")) = [(0, [1], 0, [])] := by decide
+
+/- regression item for `empty-document` (fix 809bbec): the empty input is an empty AST -/
+example : defCount (C03.parseString G ids []) = some 0 := by decide
+set_option maxRecDepth 100000 in
+example : defCount (C03.parseString G ids (txt " // c\n")) = some 0 := by decide
+
+/- KNOWN FINDING "fieldreq-prefix" (not fixed: needs a regenerated thrift.peg.go): FieldReq has no `!LetterOrDigit` guard, a type named `requiredness` is split. -/
 set_option maxRecDepth 100000 in
 example : structFieldSummary (C03.parseString G ids (txt "struct S { 1: requiredness x }")) =
     [(1, txt "x", 1, txt "ness")] := by decide
